@@ -24,15 +24,20 @@ _ORIG_UUID4 = _uuid_mod.uuid4
 
 # --------------------------------------------------------------------------- N4 / N6
 
-def _sim_hash(self):
-    d = self.__dict__
-    try:
-        return d['_simh']
-    except KeyError:
-        rng = _STATE['hash_rng']
-        h = rng.getrandbits(60) if rng is not None else id(self) >> 4
-        d['_simh'] = h
-        return h
+def _make_hash(stream):
+    """Per-object number drawn lazily from the named per-run stream.  Separate streams per class family keep
+    the numbers a family gets independent of how often objects of another family are hashed (e.g. by reads
+    that go through the memo dictionaries)."""
+    def _sim_hash(self):
+        d = self.__dict__
+        try:
+            return d['_simh']
+        except KeyError:
+            rng = _STATE['hash_rng'].get(stream) if _STATE['hash_rng'] else None
+            h = rng.getrandbits(60) if rng is not None else id(self) >> 4
+            d['_simh'] = h
+            return h
+    return _sim_hash
 
 
 def _sim_uuid4():
@@ -50,8 +55,8 @@ def hashed_classes():
     from glue.core.subset_group import GroupedSubset, SubsetGroup
     from glue.core.component import Component
     from glue.core.link_helpers import LinkCollection
-    return [ComponentID, ComponentLink, BaseData, Subset, SubsetState, GroupedSubset,
-            SubsetGroup, Component, LinkCollection]
+    return [(ComponentID, 'cid'), (ComponentLink, 'link'), (BaseData, 'data'), (Subset, 'subset'), (SubsetState, 'state'),
+            (GroupedSubset, 'subset'), (SubsetGroup, 'group'), (Component, 'comp'), (LinkCollection, 'linkcoll')]
 
 
 def install(need_glue=True):
@@ -61,14 +66,15 @@ def install(need_glue=True):
     gc.disable()
     _uuid_mod.uuid4 = _sim_uuid4
     if need_glue:
-        for cls in hashed_classes():
-            cls.__hash__ = _sim_hash
+        for cls, stream in hashed_classes():
+            cls.__hash__ = _make_hash(stream)
     _STATE['installed'] = True
 
 
 def begin_run(env_seed):
     """Start the per-run streams.  Call after reset_globals()."""
-    _STATE['hash_rng'] = random.Random((env_seed << 1) ^ 0x5bd1e995)
+    _STATE['hash_rng'] = dict((name, random.Random('%d/%s' % (env_seed, name)))
+                              for name in ('cid', 'link', 'data', 'subset', 'state', 'group', 'comp', 'linkcoll'))
     _STATE['uuid_rng'] = random.Random((env_seed << 1) ^ 0x1b873593)
 
 
